@@ -287,3 +287,108 @@ Qed.
 
 Lemma directives_no_slash : hd_error (p_ignore TP) <> Some 47 /\ hd_error (p_no_kvp TP) <> Some 47.
 Proof. split; vm_compute; discriminate. Qed.
+
+(* ------------------------------------------------------------------------------------------ *)
+(* a comment AFTER code on the line: the unanchored regex finds it too                         *)
+(* ------------------------------------------------------------------------------------------ *)
+Lemma search_skips_no_slash : forall pre t idx,
+  forallb (fun c => negb (c =? 47)) pre = true ->
+  search_from RE (pre ++ t)%list idx =
+  match pre with
+  | [] => search_from RE t idx
+  | _ => search_from RE t (idx + tlen pre)
+  end.
+Proof.
+  induction pre as [|c pre IH]; intros t idx H; [reflexivity|].
+  cbn [forallb] in H. apply andb_true_iff in H. destruct H as [Hc Hp].
+  cbn [app search_from]. rewrite RE_unfold. rewrite alts_miss by (intros ->; discriminate). rewrite <- RE_unfold.
+  rewrite (IH t (idx + 1) Hp). destruct pre as [|d pre']; cbn [tlen]; [rewrite N.add_0_r; reflexivity|].
+  f_equal. lia.
+Qed.
+
+Theorem captures_trailing_line_comment pre body :
+  forallb (fun c => negb (c =? 47)) pre = true -> body <> [] -> dots body = true ->
+  let l := (pre ++ [47; 47] ++ body)%list in
+  captures RE l = Some [(1, (tlen pre + 2, tlen l)); (0, (tlen pre, tlen l))].
+Proof.
+  intros Hp Hne Hd l. unfold captures, l.
+  assert (Hhit : forall idx, search_from RE ([47; 47] ++ body)%list idx
+                 = Some [(1, (idx + 2, idx + 2 + tlen body)); (0, (idx, idx + 2 + tlen body))]).
+  { intros idx. destruct body as [|b body']; [congruence|]. cbn [app search_from].
+    change (fun s : rst => Some (set_cap (rcaps s) 0 (idx, ridx s))) with (kfin idx).
+    rewrite RE_unfold, m_alt. change (47 :: 47 :: b :: body') with ([47; 47] ++ b :: body')%list.
+    rewrite (line_alt_hit (b :: body') idx Hne Hd). reflexivity. }
+  rewrite (search_skips_no_slash pre _ 0 Hp). rewrite !tlen_app.
+  destruct pre as [|c pre'].
+  - rewrite Hhit. cbn [tlen app]. rewrite !N.add_0_l. change (1 + (1 + 0)) with 2. reflexivity.
+  - rewrite Hhit. cbn [tlen]. change (1 + (1 + 0)) with 2. rewrite !N.add_0_l.
+    replace (1 + tlen pre' + 2 + tlen body) with (1 + tlen pre' + (2 + tlen body)) by lia. reflexivity.
+Qed.
+
+(* the directive scan on such a line: the comment's text decides, as for a comment of its own (the
+   whole match "//..." never is a directive) *)
+Lemma cap_text_from_mid p q : cap_text (p ++ q) (tlen p, tlen (p ++ q)) = q.
+Proof. apply cap_text_after. Qed.
+
+Theorem directive_on_trailing_line_comment d l pre body ls :
+  hd_error d <> Some 47 ->
+  trim (p_is_ws TP) l = (pre ++ [47; 47] ++ body)%list -> pre <> [] ->
+  forallb (fun c => negb (c =? 47)) pre = true -> body <> [] -> dots body = true ->
+  scan_lines TP d RE (l :: ls) = text_eqb (norm body) d.
+Proof.
+  intros Hd Hl Hpne Hp Hne Hdots. cbn [scan_lines]. rewrite Hl.
+  destruct (pre ++ [47; 47] ++ body)%list as [|x xs] eqn:E; [destruct pre; discriminate|]. rewrite <- E.
+  pose proof (captures_trailing_line_comment pre body Hp Hne Hdots) as Hc. cbv zeta in Hc. rewrite Hc.
+  change (S (N.to_nat (max_group RE))) with 3%nat.
+  cbn [group_texts get_cap]. change (1 =? 0) with false. change (0 =? 0) with true. cbn iota.
+  change (0 + 1) with 1. change (1 =? 1) with true. cbn iota. change (1 + 1) with 2.
+  change (1 =? 2) with false. change (0 =? 2) with false. cbn iota.
+  (* group 0: from the comment opener to the end of the line; group 1: the comment text *)
+  rewrite (cap_text_from_mid pre ([47; 47] ++ body)).
+  replace (tlen pre + 2) with (tlen (pre ++ [47; 47])) by (rewrite tlen_app; reflexivity).
+  replace (pre ++ [47; 47] ++ body)%list with ((pre ++ [47; 47]) ++ body)%list by (rewrite <- app_assoc; reflexivity).
+  rewrite (cap_text_from_mid (pre ++ [47; 47]) body).
+  cbn [existsb app]. fold (norm (47 :: 47 :: body)). fold (norm body). rewrite (whole_line_never d _ Hd). rewrite orb_false_r. reflexivity.
+Qed.
+
+(* ... and a block comment that ends the line, after code without a slash *)
+Theorem captures_trailing_block_comment pre body :
+  forallb (fun c => negb (c =? 47)) pre = true -> body <> [] -> dots body = true ->
+  let l := (pre ++ [47; 42] ++ body ++ [42; 47])%list in
+  captures RE l = Some [(2, (tlen pre + 2, tlen pre + 2 + tlen body)); (0, (tlen pre, tlen l))].
+Proof.
+  intros Hp Hne Hd l. unfold captures, l.
+  assert (Hhit : forall idx, search_from RE ([47; 42] ++ body ++ [42; 47])%list idx
+                 = Some [(2, (idx + 2, idx + 2 + tlen body)); (0, (idx, idx + 2 + tlen body + 2))]).
+  { intros idx. cbn [app search_from].
+    change (fun s : rst => Some (set_cap (rcaps s) 0 (idx, ridx s))) with (kfin idx).
+    rewrite RE_unfold, m_alt, line_alt_miss_block.
+    change (47 :: 42 :: (body ++ [42; 47])%list) with ([47; 42] ++ body ++ [42; 47])%list.
+    rewrite (block_alt_hit body idx Hne Hd). reflexivity. }
+  rewrite (search_skips_no_slash pre _ 0 Hp). rewrite !tlen_app. cbn [tlen]. change (1 + (1 + 0)) with 2.
+  destruct pre as [|c pre'].
+  - rewrite Hhit. cbn [tlen]. rewrite !N.add_0_l. rewrite N.add_assoc. reflexivity.
+  - rewrite Hhit. cbn [tlen]. rewrite !N.add_0_l.
+    replace (1 + tlen pre' + 2 + tlen body + 2) with (1 + tlen pre' + (2 + (tlen body + 2))) by lia. reflexivity.
+Qed.
+
+Theorem directive_on_trailing_block_comment d l pre body ls :
+  hd_error d <> Some 47 ->
+  trim (p_is_ws TP) l = (pre ++ [47; 42] ++ body ++ [42; 47])%list -> pre <> [] ->
+  forallb (fun c => negb (c =? 47)) pre = true -> body <> [] -> dots body = true ->
+  scan_lines TP d RE (l :: ls) = text_eqb (norm body) d.
+Proof.
+  intros Hd Hl Hpne Hp Hne Hdots. cbn [scan_lines]. rewrite Hl.
+  destruct (pre ++ [47; 42] ++ body ++ [42; 47])%list as [|x xs] eqn:E; [destruct pre; discriminate|]. rewrite <- E.
+  pose proof (captures_trailing_block_comment pre body Hp Hne Hdots) as Hc. cbv zeta in Hc. rewrite Hc.
+  change (S (N.to_nat (max_group RE))) with 3%nat.
+  cbn [group_texts get_cap]. change (2 =? 0) with false. change (0 =? 0) with true. cbn iota.
+  change (0 + 1) with 1. change (2 =? 1) with false. change (0 =? 1) with false. cbn iota. change (1 + 1) with 2.
+  change (2 =? 2) with true. cbn iota.
+  rewrite (cap_text_from_mid pre ([47; 42] ++ body ++ [42; 47])).
+  replace (tlen pre + 2) with (tlen (pre ++ [47; 42])) by (rewrite tlen_app; reflexivity).
+  replace (pre ++ [47; 42] ++ body ++ [42; 47])%list with ((pre ++ [47; 42]) ++ body ++ [42; 47])%list by (rewrite <- app_assoc; reflexivity).
+  rewrite (cap_text_mid (pre ++ [47; 42]) body [42; 47]).
+  cbn [existsb app]. fold (norm (47 :: 42 :: body ++ [42; 47])). fold (norm body).
+  rewrite (whole_line_never d _ Hd). rewrite orb_false_r. reflexivity.
+Qed.
